@@ -1,6 +1,6 @@
 """Loop classification (termination side of T8): which cycles of a body's CFG are driven by a finite iterator or are
 await poll loops, and which are genuine `loop`/`while` constructs that need a bound argument."""
-from .mir import CallSite
+from .mir import CallSite, op_const, op_local, op_place
 
 FINITE_ITER_MARKERS = (
     "core::slice::iter::Iter", "core::slice::iter::IterMut", "alloc::vec::into_iter::IntoIter", "core::ops::range::Range",
@@ -81,8 +81,9 @@ def unexplained_loops(body):
 def recursive_sccs(prog, keys):
     """call-graph SCCs (recursion) among the given body keys"""
     cg = prog.call_graph()
-    keys = set(keys)
-    succ = {k: [c for c in cg.get(k, ()) if c in keys] for k in keys}
+    keys = {k for k in keys if not prog.absorbed(k)}
+    # helpers that are inlined into all their callers are contracted: the graph is the one of the helper-transparent views
+    succ = {k: [c for c in prog.callees_of(prog.body(k)) if c in keys] for k in keys}
     index, low, on, st, out = {}, {}, set(), [], []
     cnt = [0]
     for root in sorted(keys):
@@ -123,3 +124,128 @@ def recursive_sccs(prog, keys):
                 if len(comp) > 1 or u in succ[u]:
                     out.append(sorted(comp))
     return out
+
+
+def _has_cycle(body, nodes):
+    nodes = set(nodes)
+    color = {}
+    for root in nodes:
+        if root in color:
+            continue
+        stack = [(root, iter([x for x in body.succ[root] if x in nodes]))]
+        color[root] = 1
+        while stack:
+            u, it = stack[-1]
+            adv = False
+            for v in it:
+                if color.get(v) == 1:
+                    return True
+                if v not in color:
+                    color[v] = 1
+                    stack.append((v, iter([x for x in body.succ[v] if x in nodes])))
+                    adv = True
+                    break
+            if not adv:
+                color[u] = 2
+                stack.pop()
+    return False
+
+
+def counted_loop(body, scc):
+    """A `while n > 0 { n -= 1; .. }` / `while i < K { ..; i += 1 }` loop: returns {"counter", "bound", "step_blocks", "test_bb"} when
+    the SCC is driven by an integer local that (1) is compared with a constant in a switch of the SCC one of whose edges
+    leaves the SCC, (2) is only ever changed inside the SCC by +-1 steps in the terminating direction, (3) every cycle of the
+    SCC passes such a step, (4) has a constant initial value, (5) never has its address taken mutably. Else None."""
+    from .panic_allow import interval
+    sset = set(scc)
+    for c, d in enumerate(body.locals):
+        if d["ty"] not in ("usize", "u8", "u16", "u32", "u64", "i8", "i16", "i32", "i64", "isize"):
+            continue
+        defs = body.defs.get(c, [])
+        if not defs:
+            continue
+        inside = [(k, bb, j, x) for k, bb, j, x in defs if bb in sset]
+        outside = [(k, bb, j, x) for k, bb, j, x in defs if bb not in sset]
+        if not inside or not outside:
+            continue
+        # steps: `c = move (_t.0)` with `_t = Sub/AddWithOverflow(copy c, const 1)`, or plain `c = Sub(c, 1)`
+        direction = None
+        ok = True
+        step_blocks = []
+        for k, bb, j, x in inside:
+            if k != "stmt" or x["s"] != "assign" or x["lhs"]["p"]:
+                ok = False
+                break
+            rv = x["rv"]
+            op = None
+            if rv["k"] == "use":
+                pl = op_place(rv["op"])
+                if pl is not None and len(pl["p"]) == 1 and isinstance(pl["p"][0], dict) and pl["p"][0].get("f") == 0:
+                    for k2, bb2, j2, x2 in body.defs.get(pl["l"], []):
+                        if k2 == "stmt" and x2["s"] == "assign" and x2["rv"]["k"] == "binop" and x2["rv"]["op"] in ("SubWithOverflow", "AddWithOverflow"):
+                            op = x2["rv"]
+            elif rv["k"] == "binop" and rv["op"] in ("Sub", "Add", "SubUnchecked", "AddUnchecked"):
+                op = rv
+            if op is None or op_local(op["a"]) != c or (op_const(op["b"]) or {}).get("int") != 1:
+                ok = False
+                break
+            dr = "down" if op["op"].startswith("Sub") else "up"
+            if direction not in (None, dr):
+                ok = False
+                break
+            direction = dr
+            step_blocks.append(bb)
+        if not ok or direction is None:
+            continue
+        # address taken mutably anywhere?
+        taken = False
+        for i, blk in enumerate(body.blocks):
+            for st in blk["stmts"]:
+                if st["s"] == "assign" and st["rv"]["k"] in ("ref", "rawptr") and st["rv"]["place"]["l"] == c and st["rv"].get("bk", "") not in ("shared", "Shared", "fake"):
+                    taken = True
+        if taken:
+            continue
+        # the exit test
+        test_bb = None
+        for i in sorted(sset):
+            t = body.term(i)
+            if t["t"] != "switch" or not any(x not in sset for x in body.succ[i]):
+                continue
+            dl = op_local(t["discr"])
+            for k2, bb2, j2, x2 in body.defs.get(dl, []):
+                if k2 == "stmt" and x2["s"] == "assign" and x2["rv"]["k"] == "binop" and x2["rv"]["op"] in ("Gt", "Ge", "Ne", "Lt", "Le"):
+                    a, b_ = x2["rv"]["a"], x2["rv"]["b"]
+                    la, lb = op_local(a), op_local(b_)
+                    # the compared value is the counter or a fresh copy of it
+                    def is_c(l):
+                        if l == c:
+                            return True
+                        ds = body.defs.get(l, [])
+                        return len(ds) == 1 and ds[0][0] == "stmt" and ds[0][3]["rv"]["k"] == "use" and op_local(ds[0][3]["rv"]["op"]) == c and not op_place(ds[0][3]["rv"]["op"])["p"]
+                    other = b_ if (la is not None and is_c(la)) else (a if (lb is not None and is_c(lb)) else None)
+                    if other is not None and (op_const(other) is not None or interval(body, other) is not None):
+                        test_bb = i
+        if test_bb is None:
+            continue
+        # every cycle passes a step
+        if _has_cycle(body, [x for x in sset if x not in set(step_blocks)]):
+            continue
+        init = None
+        for k, bb, j, x in outside:
+            if k == "stmt" and x["s"] == "assign" and x["rv"]["k"] == "use":
+                iv = interval(body, x["rv"]["op"]) if op_const(x["rv"]["op"]) is None else None
+                cc = op_const(x["rv"]["op"])
+                if cc is not None and "int" in cc:
+                    init = cc["int"] if init is None else max(init, cc["int"])
+                elif iv:
+                    init = iv[1] if init is None else max(init, iv[1])
+                else:
+                    init = None
+                    break
+            else:
+                init = None
+                break
+        if init is None:
+            continue
+        return {"counter": c, "bound": init if direction == "down" else None, "direction": direction, "step_blocks": step_blocks, "test_bb": test_bb}
+    return None
